@@ -89,6 +89,22 @@ theorem current_unsafe : ¬ Safe .current := by
   have := (h id (fun _ _ h => h) witnessRaceImport noFault_witnessRaceImport).2 1
   exact this.1 current_race_import_witness
 
+/-- … while a *lone, uninterrupted* process of the current protocol is fine whatever stale
+`.pyx/.c/.o` files it finds (it rewrites them all) — which is all the test-suite exercises,
+and what the fault stream observes for those three kinds of files. -/
+theorem current_lone_builder_ok (digest : Src → Nat) (σ : State) (i : Nat) (s : Src)
+    (hi : (σ.procs i).pc = .unborn) (c : Bool)
+    (h : σ.dir (final (digest s)) = .absent ∨ (σ.dir (final (digest s)) = .part ∧ c = false)) :
+    ((exec .current digest σ (.spawn i s :: runs i c 10)).procs i).pc = .loaded s := by
+  rcases h with h | ⟨h, hc⟩
+  · have h' : σ.dir (Path.shared (digest s) Kind.so) = .absent := h
+    simp [exec, runs, List.replicate, step, hi, State.setProc, pstep, importStep, h', readSrc,
+      fileAt, final, Dir.set]
+  · subst hc
+    have h' : σ.dir (Path.shared (digest s) Kind.so) = .part := h
+    simp [exec, runs, List.replicate, step, hi, State.setProc, pstep, importStep, h', readSrc,
+      fileAt, final, Dir.set]
+
 /-! ## the repaired protocol is safe -/
 
 theorem noFault_admissible (digest : Src → Nat) (tr : List Event) :
@@ -193,6 +209,20 @@ theorem step_touches_only_own_entry (digest : Src → Nat) (hinj : Function.Inje
     (h : Path.shared n k ≠ final (digest (σ.procs i).src)) :
     (step .repaired digest σ (.run i c)).dir (.shared n k) = σ.dir (.shared n k) :=
   (pstep_facts hinj c hσ.final_ok hσ.fresh (hσ.procs_ok i)).shared_frame n k h
+
+/-- **A published entry that the loader rejects is healed.**  If the final path has been
+corrupted from outside (state `part`; not reachable by the protocol itself) and the loader
+answers with `ImportError` rather than dying, the next lone request rebuilds in a private
+directory and atomically replaces the entry: it returns its module and the final path is
+complete again.  (This is the `except ImportError` branch of `compile_cython_module`.) -/
+theorem repaired_heals_rejected_entry (digest : Src → Nat) (σ : State) (i : Nat) (s : Src)
+    (hi : (σ.procs i).pc = .unborn) (h : σ.dir (final (digest s)) = .part) :
+    ((exec .repaired digest σ (.spawn i s :: runs i false 13)).procs i).pc = .loaded s ∧
+    (exec .repaired digest σ (.spawn i s :: runs i false 13)).dir (final (digest s)) = .complete s := by
+  have h' : σ.dir (Path.shared (digest s) Kind.so) = .part := h
+  constructor <;>
+  simp [exec, runs, List.replicate, step, hi, State.setProc, pstep, importStep, h', readSrc,
+      fileAt, final, Dir.set, Dir.rmtree]
 
 /-! ## the named assumptions are needed, and a tempting wrong repair is unsafe -/
 
